@@ -757,7 +757,7 @@ def k_response(ctx: Any, uniform: dict[str, Any]) -> None:
     """The single rejection body the campaign saw is the one the model's extracted raise sites give."""
     if ctx.driver is None or "body" not in uniform:
         return
-    sites = ["_open_cursor_token#0", "_open_cursor_token#1", "_open_cursor_token#4", "_open_call_token#1", "_unpack_plaintext#1",
+    sites = ["_open_cursor_token#0", "_open_cursor_token#1", "_open_cursor_token#4", T._OPEN_CALL + "#1", "_unpack_plaintext#1",
              "_read_segment#0", "_resolve_call_from_token#1", "_unpack_and_recover_state#0"]
     res = ctx.driver.batch([("Token.response", {"site": s}) for s in sites])
     seen = None
